@@ -410,6 +410,38 @@ func (e *c17BEnv) run(c c17BCase) (key, what, outcome, inconclusive string) {
 	h0 := bcR.pool.height
 	recvPanics := 0
 	switch c.Kind {
+	case "FarBlockBurst":
+		// c.A well-formed BlockResponses for a height far from anything the pool asked for, one after the other, from one peer
+		pb, err := e.blocks[3].ToProto()
+		if err != nil {
+			panic(err)
+		}
+		pb.Header.Height = 500
+		msg := c17BMsg("BlockResponse", 0, 0, pb)
+		done := make(chan int, 1)
+		go func() {
+			n := 0
+			for i := int64(0); i < c.A; i++ {
+				if recv(peer, msg) != "" {
+					n++
+				}
+			}
+			done <- n
+		}()
+		select {
+		case n := <-done:
+			recvPanics += n
+		case <-time.After(30 * time.Second):
+			return "blockchain/v0:Receive-does-not-return", fmt.Sprintf("after %d block responses for a far-away height from one peer, Receive has not returned for 30 s (the peer's receive routine is wedged): %s", c.A, desc), "", ""
+		}
+		// another peer's status must still get through
+		sdone := make(chan struct{})
+		go func() { recv(other, c17BMsg("StatusResponse", 0, 3, nil)); close(sdone) }()
+		select {
+		case <-sdone:
+		case <-time.After(30 * time.Second):
+			return "blockchain/v0:Receive-does-not-return", fmt.Sprintf("after %d block responses for a far-away height from one peer, another peer's StatusResponse has not been handled for 30 s: %s", c.A, desc), "", ""
+		}
 	case "BlockResponse":
 		for i, bi := range c.Blocks {
 			from := peer
@@ -522,6 +554,11 @@ func TestVerifC17Blockchain(t *testing.T) {
 					c.Kind, c.A, c.B = "StatusResponse", h, h2
 					cases = append(cases, c)
 				}
+			}
+			for _, cnt := range []int64{1, 1001, 2100} {
+				c := b
+				c.Kind, c.A = "FarBlockBurst", cnt
+				cases = append(cases, c)
 			}
 			n := len(e.menu)
 			for i := 0; i < n; i++ {
